@@ -526,7 +526,12 @@ def _collect_update_commands(
                     history = state.manager[prop.key].impl.get_history(
                         state, state_dict, attributes.PASSIVE_NO_INITIALIZE
                     )
-                    if history.added:
+                    if history.added or any(
+                        value is not None for value in history.deleted
+                    ):
+                        # "deleted" without "added" is an attribute that
+                        # was del'ed (flushed as NULL): a net change too,
+                        # unless the row already holds NULL
                         break
                 else:
                     # no net change, break
